@@ -97,6 +97,43 @@ Proof.
   - inversion Hs; subst. auto.
 Qed.
 
+Section blk_induction.
+  Variable P : blk -> Prop.
+  Hypothesis HR : forall ls, P (BRefs ls).
+  Hypothesis HD : forall l b rs, P (BDef l b rs).
+  Hypothesis HB : forall its, Forall P its -> P (BBox its).
+  Fixpoint blk_ind' (b : blk) : P b :=
+    match b with
+    | BRefs ls => HR ls
+    | BDef l body rs => HD l body rs
+    | BBox its =>
+        HB its ((fix go (its : list blk) : Forall P its :=
+                   match its with
+                   | [] => Forall_nil P
+                   | i :: r => Forall_cons i (blk_ind' i) (go r)
+                   end) its)
+    end.
+End blk_induction.
+
+Section ltop_induction.
+  Variable P : ltop -> Prop.
+  Hypothesis H1 : P LOther.
+  Hypothesis H2 : P LMsg.
+  Hypothesis H3 : forall l, P (LFoot l).
+  Hypothesis H4 : forall its, Forall P its -> P (LBox its).
+  Hypothesis H5 : P LTrans.
+  Fixpoint ltop_ind' (n : ltop) : P n :=
+    match n with
+    | LOther => H1 | LMsg => H2 | LFoot l => H3 l | LTrans => H5
+    | LBox its =>
+        H4 its ((fix go (its : list ltop) : Forall P its :=
+                   match its with
+                   | [] => Forall_nil P
+                   | i :: r => Forall_cons i (ltop_ind' i) (go r)
+                   end) its)
+    end.
+End ltop_induction.
+
 Ltac rsimpl := cbn [g_nameids g_autofootnotes g_footnotes g_autofootnote_refs g_footnote_refs
                      g_allrefs g_nrefs g_warn fst snd].
 
@@ -116,9 +153,7 @@ Section FootProofs.
   Notation render_footnote_ref := (render_footnote_ref isdigit).
   Notation render_footnote_reference := (render_footnote_reference isdigit).
   Notation render_refs := (render_refs isdigit).
-  Notation render_inner := (render_inner isdigit).
-  Notation render_inners := (render_inners isdigit).
-  Notation render_top := (render_top isdigit).
+  Notation render_blk := (render_blk isdigit).
   Notation render_doc := (render_doc isdigit).
 
   (* ---------------------------------------------------------------- registries: invariant *)
@@ -194,11 +229,9 @@ Section FootProofs.
   (* ---------------------------------------------------------------- what the renderer keeps *)
 
   (* the definitions of a document in document order *)
-  Definition inner_defs (i : inner) : list (str * N) :=
-    match i with IDef l b _ => [(l, b)] | IRefs _ => [] end.
-  Definition top_defs (t : top) : list (str * N) :=
-    match t with TDef l b _ => [(l, b)] | TBox its => flat_map inner_defs its | TRefs _ => [] end.
-  Definition all_defs (d : doc) : list (str * N) := flat_map top_defs d.
+  Fixpoint blk_defs (b : blk) : list (str * N) :=
+    match b with BDef l body _ => [(l, body)] | BBox its => flat_map blk_defs its | BRefs _ => [] end.
+  Definition all_defs (d : doc) : list (str * N) := flat_map blk_defs d.
 
   (* the first definition of every label (given the labels already seen) ... *)
   Fixpoint firsts (seen : list str) (ds : list (str * N)) : list (str * N) :=
@@ -239,9 +272,8 @@ Section FootProofs.
   Definition pairs (g : regs) : list (str * N) :=
     map (fun f => (f_label f, f_body f)) (g_autofootnotes g ++ g_footnotes g).
 
-  Definition lin_foots (n : lin) : list str := match n with LIFoot l => [l] | _ => [] end.
-  Definition ltop_foots (n : ltop) : list str :=
-    match n with LFoot l => [l] | LBox its => flat_map lin_foots its | _ => [] end.
+  Fixpoint ltop_foots (n : ltop) : list str :=
+    match n with LFoot l => [l] | LBox its => flat_map ltop_foots its | _ => [] end.
   Definition layout_foots (ly : list ltop) : list str := flat_map ltop_foots ly.
 
   Definition step_ok (g g' : regs) (ds : list (str * N)) (foots : list str) : Prop :=
@@ -304,64 +336,56 @@ Section FootProofs.
       + rewrite app_assoc, map_app. reflexivity.
   Qed.
 
-  Lemma step_ok_inner g i :
-    step_ok g (fst (render_inner g i)) (inner_defs i) (lin_foots (snd (render_inner g i))).
+  (* the container case of render_blk is render_doc on its items *)
+  Lemma render_box its : forall g,
+    render_blk g (BBox its) = (let '(g1, ns) := render_doc g its in (g1, LBox ns)).
   Proof.
-    destruct i as [ls|l b rs]; simpl.
-    - apply step_ok_refs.
-    - pose proof (step_ok_def g l b) as Hd.
-      destruct (render_footnote_reference g l b) as [g1 kept] eqn:E. simpl in Hd.
-      destruct kept; simpl.
-      + replace [(l, b)] with ([(l, b)] ++ []) by reflexivity.
-        replace [l] with ([l] ++ []) by reflexivity.
-        eapply step_ok_trans; [exact Hd|apply step_ok_refs].
-      + exact Hd.
+    induction its as [|i its IH]; intro g; [reflexivity|].
+    specialize (IH (fst (render_blk g i))).
+    cbn [Foot.render_blk Foot.render_doc] in *.
+    destruct (render_blk g i) as [g1 n]. cbn [fst] in IH.
+    match type of IH with (let '(_, _) := ?go in _) = _ => destruct go as [g2 ns] end.
+    destruct (render_doc g1 its) as [g2' ns']. inversion IH; subst. reflexivity.
   Qed.
 
-  Lemma step_ok_inners its : forall g,
-    step_ok g (fst (render_inners g its)) (flat_map inner_defs its)
-            (flat_map lin_foots (snd (render_inners g its))).
+  Lemma step_ok_doc_of (P : blk -> Prop) d :
+    (forall b, In b d -> forall g, step_ok g (fst (render_blk g b)) (blk_defs b) (ltop_foots (snd (render_blk g b)))) ->
+    forall g, step_ok g (fst (render_doc g d)) (all_defs d) (layout_foots (snd (render_doc g d))).
   Proof.
-    induction its as [|i its IH]; intro g; simpl.
+    induction d as [|t d IH]; intros Hb g; simpl.
     - unfold step_ok, pairs. simpl. rewrite !app_nil_r. auto.
-    - pose proof (step_ok_inner g i) as Hi.
-      destruct (render_inner g i) as [g1 n] eqn:E1. simpl in Hi.
-      pose proof (IH g1) as Hr.
-      destruct (render_inners g1 its) as [g2 ns] eqn:E2. simpl in *.
-      eapply step_ok_trans; eauto.
-  Qed.
-
-  Lemma step_ok_top g t :
-    step_ok g (fst (render_top g t)) (top_defs t) (ltop_foots (snd (render_top g t))).
-  Proof.
-    destruct t as [ls|l b rs|its]; simpl.
-    - apply step_ok_refs.
-    - pose proof (step_ok_def g l b) as Hd.
-      destruct (render_footnote_reference g l b) as [g1 kept] eqn:E. simpl in Hd.
-      destruct kept; simpl.
-      + replace [(l, b)] with ([(l, b)] ++ []) by reflexivity.
-        replace [l] with ([l] ++ []) by reflexivity.
-        eapply step_ok_trans; [exact Hd|apply step_ok_refs].
-      + exact Hd.
-    - pose proof (step_ok_inners its g) as Hi.
-      destruct (render_inners g its) as [g1 ns] eqn:E. simpl in *. exact Hi.
-  Qed.
-
-  Lemma step_ok_doc d : forall g,
-    step_ok g (fst (render_doc g d)) (all_defs d) (layout_foots (snd (render_doc g d))).
-  Proof.
-    induction d as [|t d IH]; intro g; simpl.
-    - unfold step_ok, pairs. simpl. rewrite !app_nil_r. auto.
-    - pose proof (step_ok_top g t) as Ht.
-      destruct (render_top g t) as [g1 n] eqn:E1. simpl in Ht.
-      pose proof (IH g1) as Hr.
+    - pose proof (Hb t (or_introl eq_refl) g) as Ht.
+      destruct (render_blk g t) as [g1 n] eqn:E1. simpl in Ht.
+      pose proof (IH (fun b Hin => Hb b (or_intror Hin)) g1) as Hr.
       destruct (render_doc g1 d) as [g2 ns] eqn:E2. simpl in *.
       unfold all_defs, layout_foots in *. simpl.
       eapply step_ok_trans; eauto.
   Qed.
 
+  Lemma step_ok_blk b : forall g,
+    step_ok g (fst (render_blk g b)) (blk_defs b) (ltop_foots (snd (render_blk g b))).
+  Proof.
+    induction b as [ls|l body rs|its IH] using blk_ind'; intro g.
+    - simpl. apply step_ok_refs.
+    - simpl. pose proof (step_ok_def g l body) as Hd.
+      destruct (render_footnote_reference g l body) as [g1 kept] eqn:E. simpl in Hd.
+      destruct kept; simpl.
+      + replace [(l, body)] with ([(l, body)] ++ []) by reflexivity.
+        replace [l] with ([l] ++ []) by reflexivity.
+        eapply step_ok_trans; [exact Hd|apply step_ok_refs].
+      + exact Hd.
+    - rewrite render_box.
+      assert (Hd : forall g, step_ok g (fst (render_doc g its)) (all_defs its) (layout_foots (snd (render_doc g its)))).
+      { apply (step_ok_doc_of (fun _ => True)). rewrite Forall_forall in IH. exact IH. }
+      specialize (Hd g). destruct (render_doc g its) as [g1 ns]. simpl in *. exact Hd.
+  Qed.
+
+  Lemma step_ok_doc d : forall g,
+    step_ok g (fst (render_doc g d)) (all_defs d) (layout_foots (snd (render_doc g d))).
+  Proof. apply (step_ok_doc_of (fun _ => True)). intros b _. apply step_ok_blk. Qed.
+
   (* ---------------------------------------------------------------- SortFootnotes *)
-  Lemma wf_sort fs g : wf g -> wf (sort_footnotes fs g).
+  Lemma wf_sort fs g : wf g -> wf (sort_footnotes false fs g).
   Proof.
     intros [H1 H2 H3 H4 H5 H6 H7 H8]. unfold sort_footnotes.
     destruct (negb fs); [constructor; auto|].
@@ -372,13 +396,13 @@ Section FootProofs.
   Qed.
 
   Lemma sort_same fs g :
-    g_nameids (sort_footnotes fs g) = g_nameids g /\
-    g_footnotes (sort_footnotes fs g) = g_footnotes g /\
-    g_autofootnote_refs (sort_footnotes fs g) = g_autofootnote_refs g /\
-    g_footnote_refs (sort_footnotes fs g) = g_footnote_refs g /\
-    g_allrefs (sort_footnotes fs g) = g_allrefs g /\
-    g_warn (sort_footnotes fs g) = g_warn g /\
-    Permutation (g_autofootnotes g) (g_autofootnotes (sort_footnotes fs g)).
+    g_nameids (sort_footnotes false fs g) = g_nameids g /\
+    g_footnotes (sort_footnotes false fs g) = g_footnotes g /\
+    g_autofootnote_refs (sort_footnotes false fs g) = g_autofootnote_refs g /\
+    g_footnote_refs (sort_footnotes false fs g) = g_footnote_refs g /\
+    g_allrefs (sort_footnotes false fs g) = g_allrefs g /\
+    g_warn (sort_footnotes false fs g) = g_warn g /\
+    Permutation (g_autofootnotes g) (g_autofootnotes (sort_footnotes false fs g)).
   Proof.
     unfold sort_footnotes. destruct (negb fs); rsimpl; repeat split; auto.
     apply isort_perm.
@@ -489,7 +513,7 @@ Section FootProofs.
     run fs ft d = Ok r ->
     exists g0 ly autos,
       render_doc regs0 d = (g0, ly) /\
-      let g1 := sort_footnotes fs g0 in
+      let g1 := sort_footnotes false fs g0 in
       number_footnotes g1 (g_autofootnotes g1) 1 = Ok autos /\
       let s4 := collect_footnotes int_of fs ft (unreferenced (stage_state g0 g1 ly autos)) in
       r = {| x_refs := map (ref_out (resolve_footnotes g1 ++ autos)) (g_allrefs g1);
@@ -501,7 +525,7 @@ Section FootProofs.
     cbn [apply_all apply_xform bind s_regs s_manual s_auto s_layout s_warn].
     rewrite O_footnotes_xform.
     unfold docutils_footnotes. cbn [s_regs s_manual s_auto s_layout s_warn].
-    destruct (number_footnotes (sort_footnotes fs g0) (g_autofootnotes (sort_footnotes fs g0)) 1)
+    destruct (number_footnotes (sort_footnotes false fs g0) (g_autofootnotes (sort_footnotes false fs g0)) 1)
       as [autos|e] eqn:En; cbn [bind]; [|discriminate].
     intro H. exists g0, ly, autos. split; [reflexivity|]. split; [exact En|].
     inversion H. subst r. clear H.
@@ -510,10 +534,10 @@ Section FootProofs.
                            s_regs (collect_footnotes int_of fs ft s) = s_regs s /\
                            s_warn (collect_footnotes int_of fs ft s) = s_warn s).
     { intro s. unfold collect_footnotes. destruct (negb fs); simpl; auto. }
-    change {| s_regs := sort_footnotes fs g0; s_manual := resolve_footnotes (sort_footnotes fs g0);
-              s_auto := autos; s_layout := ly; s_warn := g_warn g0 ++ too_many (sort_footnotes fs g0) |}
-      with (stage_state g0 (sort_footnotes fs g0) ly autos).
-    destruct (Hs (unreferenced (stage_state g0 (sort_footnotes fs g0) ly autos))) as [A [B [C D]]].
+    change {| s_regs := sort_footnotes false fs g0; s_manual := resolve_footnotes (sort_footnotes false fs g0);
+              s_auto := autos; s_layout := ly; s_warn := g_warn g0 ++ too_many (sort_footnotes false fs g0) |}
+      with (stage_state g0 (sort_footnotes false fs g0) ly autos).
+    destruct (Hs (unreferenced (stage_state g0 (sort_footnotes false fs g0) ly autos))) as [A [B [C D]]].
     rewrite A, B, C. reflexivity.
   Qed.
 
@@ -524,7 +548,7 @@ Section FootProofs.
     cbn [apply_all apply_xform bind s_regs s_manual s_auto s_layout s_warn].
     rewrite O_footnotes_xform.
     unfold docutils_footnotes. cbn [s_regs].
-    destruct (number_footnotes_total (sort_footnotes fs g0) (g_autofootnotes (sort_footnotes fs g0)) 1) as [autos En].
+    destruct (number_footnotes_total (sort_footnotes false fs g0) (g_autofootnotes (sort_footnotes false fs g0)) 1) as [autos En].
     rewrite En. cbn [bind]. eauto.
   Qed.
 
@@ -562,7 +586,7 @@ Section FootProofs.
   (* ---------------------------------------------------------------- facts about one run *)
   Record facts (fs : bool) (d : doc) (r : result) (g0 g1 : regs) (ly : list ltop) (autos : list fout) : Prop := {
     fa_render : render_doc regs0 d = (g0, ly);
-    fa_g1 : g1 = sort_footnotes fs g0;
+    fa_g1 : g1 = sort_footnotes false fs g0;
     fa_wf0 : wf g0;
     fa_wf1 : wf g1;
     fa_step : step_ok regs0 g0 (all_defs d) (layout_foots ly);
@@ -577,7 +601,7 @@ Section FootProofs.
       x_layout r = s_layout s4 /\ x_warn r = s_warn s4.
   Proof.
     intro H. apply run_spec in H. cbv zeta in H. destruct H as [g0 [ly [autos [Hr [Hn Hres]]]]].
-    exists g0, (sort_footnotes fs g0), ly, autos. cbv zeta.
+    exists g0, (sort_footnotes false fs g0), ly, autos. cbv zeta.
     pose proof (step_ok_doc d regs0) as Hs. rewrite Hr in Hs. simpl in Hs.
     assert (Hw0 : wf g0) by (destruct Hs as [Hs _]; apply Hs, wf_regs0).
     subst r. split; [|split; reflexivity].
@@ -759,12 +783,12 @@ Section FootProofs.
     assert (Hne : fa <> fb).
     { intro. subst fb. rewrite Hi in Hj. inversion Hj. lia. }
     assert (Hg1 : g_autofootnotes g1
-                  = isort (sort_key (map r_label (g_autofootnote_refs g0))) Nat.leb (g_autofootnotes g0)).
+                  = isort (sort_key false (map r_label (g_autofootnote_refs g0))) Nat.leb (g_autofootnotes g0)).
     { rewrite (fa_g1 _ _ _ _ _ _ _ F). reflexivity. }
     destruct (before_or fa fb autos Ha' Hb' Hne) as [Hbf|Hbf].
     - pose proof (sorted_before _ _ _ _ C Hbf) as Hlt. simpl in Hlt. lia.
     - exfalso. apply (before_map fo_fn) in Hbf. rewrite A, Hg1 in Hbf.
-      pose proof (isort_sorted (sort_key (map r_label (g_autofootnote_refs g0))) Nat.leb
+      pose proof (isort_sorted (sort_key false (map r_label (g_autofootnote_refs g0))) Nat.leb
                                nat_leb_total nat_leb_trans (g_autofootnotes g0)) as Hs.
       pose proof (sorted_before _ _ _ _ Hs Hbf) as Hle. unfold kle, sort_key in Hle.
       fold (lbl fa) in Hle. fold (lbl fb) in Hle. rewrite Hi, Hj in Hle.
@@ -781,10 +805,9 @@ Section FootProofs.
   Qed.
 
   (* definitions that are referenced are numbered before those nobody references
-     (SortFootnotes gives the latter the key 999: up to 999 auto-numbered references) *)
+     (SortFootnotes gives the latter the key len(ref_order), larger than every index) *)
   Lemma referenced_first ft d r :
     run true ft d = Ok r ->
-    (length (auto_ref_labels r) <= 999)%nat ->
     forall fa fb ka kb i,
       In fa (x_foots r) -> In fb (x_foots r) ->
       fo_num fa = Some ka -> fo_num fb = Some kb ->
@@ -793,8 +816,8 @@ Section FootProofs.
       ka < kb.
   Proof.
     intro H. apply run_facts in H as [g0 [g1 [ly [autos [F _]]]]].
-    intros Hlen fa fb ka kb i Ha Hb Hka Hkb Hi Hj.
-    rewrite (auto_ref_labels_eq _ _ _ _ _ _ _ F) in Hi, Hj, Hlen.
+    intros fa fb ka kb i Ha Hb Hka Hkb Hi Hj.
+    rewrite (auto_ref_labels_eq _ _ _ _ _ _ _ F) in Hi, Hj.
     destruct (number_footnotes_spec _ _ _ _ (fa_num _ _ _ _ _ _ _ F)) as [A [B C]].
     assert (Hin : forall f k, In f (x_foots r) -> fo_num f = Some k -> In f autos /\ numv f = k).
     { intros f k Hf Hk. rewrite (fa_foots _ _ _ _ _ _ _ F) in Hf. apply in_app_or in Hf as [Hf|Hf].
@@ -803,13 +826,13 @@ Section FootProofs.
     destruct (Hin fa ka Ha Hka) as [Ha' Hna]. destruct (Hin fb kb Hb Hkb) as [Hb' Hnb].
     assert (Hne : fa <> fb) by (intro; subst fb; congruence).
     assert (Hg1 : g_autofootnotes g1
-                  = isort (sort_key (map r_label (g_autofootnote_refs g0))) Nat.leb (g_autofootnotes g0)).
+                  = isort (sort_key false (map r_label (g_autofootnote_refs g0))) Nat.leb (g_autofootnotes g0)).
     { rewrite (fa_g1 _ _ _ _ _ _ _ F). reflexivity. }
     apply index_of_lt in Hi as Hil.
     destruct (before_or fa fb autos Ha' Hb' Hne) as [Hbf|Hbf].
     - pose proof (sorted_before _ _ _ _ C Hbf) as Hlt. simpl in Hlt. lia.
     - exfalso. apply (before_map fo_fn) in Hbf. rewrite A, Hg1 in Hbf.
-      pose proof (isort_sorted (sort_key (map r_label (g_autofootnote_refs g0))) Nat.leb
+      pose proof (isort_sorted (sort_key false (map r_label (g_autofootnote_refs g0))) Nat.leb
                                nat_leb_total nat_leb_trans (g_autofootnotes g0)) as Hs.
       pose proof (sorted_before _ _ _ _ Hs Hbf) as Hle. unfold kle, sort_key in Hle.
       fold (lbl fa) in Hle. fold (lbl fb) in Hle. rewrite Hi, Hj in Hle.
@@ -831,14 +854,17 @@ Section FootProofs.
     - apply str_leb_trans.
   Qed.
 
-  Lemma strip_inner_no_foot its : flat_map lin_foots (filter (fun i => negb (is_ifoot i)) its) = [].
-  Proof. induction its as [|[| |l] its IH]; simpl; auto. Qed.
+  Lemma strip_no_foot1 n : flat_map ltop_foots (strip_top n) = [].
+  Proof.
+    induction n as [| |l|its IH|] using ltop_ind'; simpl; auto.
+    rewrite app_nil_r. induction its as [|i its IHi]; simpl; auto.
+    inversion IH; subst. rewrite flat_map_app, H1, IHi; auto.
+  Qed.
 
   Lemma strip_no_foot ly : layout_foots (flat_map strip_top ly) = [].
   Proof.
     unfold layout_foots. induction ly as [|n ly IH]; simpl; auto.
-    rewrite flat_map_app, IH, app_nil_r.
-    destruct n; simpl; auto. rewrite strip_inner_no_foot. reflexivity.
+    rewrite flat_map_app, IH, app_nil_r. apply strip_no_foot1.
   Qed.
 
   Lemma layout_foots_LFoot (l : list fout) :
@@ -989,7 +1015,7 @@ Lemma auto_order_refuted :
     (i < j)%nat /\ kb < ka.
 Proof.
   exists (fun _ => false), (fun _ => None), true,
-         [TRefs [[98]]; TRefs [[97]]; TDef [97] 1 []; TDef [98] 2 []].
+         [BRefs [[98]]; BRefs [[97]]; BDef [97] 1 []; BDef [98] 2 []].
   eexists. eexists. eexists. eexists. eexists. eexists. eexists.
   split; [vm_compute; reflexivity|].
   split; [right; left; reflexivity|].
@@ -1011,4 +1037,26 @@ Proof.
   split; [vm_compute; reflexivity|]. split; [vm_compute; reflexivity|]. split; [vm_compute; reflexivity|].
   split; [simpl; tauto|]. split; [simpl; tauto|]. split; [simpl; tauto|].
   split; [simpl; tauto|]. split; [simpl; tauto|]. apply pipeline_order.
+Qed.
+
+(* SortFootnotes as it was before the fix (default key 999): 1000 references to z, then one to a;
+   definitions z, a, u (u is never referenced).  a is referenced but numbered after u. *)
+Lemma referenced_first_legacy_refuted :
+  exists isdigit int_of ft d r fa fb ka kb i,
+    run_legacy isdigit int_of docutils_footnotes true ft d = Ok r /\
+    In fa (x_foots r) /\ In fb (x_foots r) /\
+    fo_num fa = Some ka /\ fo_num fb = Some kb /\
+    index_of (lbl fa) (auto_ref_labels isdigit r) = Some i /\
+    index_of (lbl fb) (auto_ref_labels isdigit r) = None /\
+    kb < ka.
+Proof.
+  exists (fun _ => false), (fun _ => None), true,
+         [BRefs (repeat [122] 1000 ++ [[97]]); BDef [122] 1 []; BDef [97] 2 []; BDef [117] 3 []].
+  eexists. eexists. eexists. eexists. eexists. eexists.
+  split; [vm_compute; reflexivity|].
+  split; [right; right; left; reflexivity|].
+  split; [right; left; reflexivity|].
+  split; [reflexivity|]. split; [reflexivity|].
+  split; [vm_compute; reflexivity|]. split; [vm_compute; reflexivity|].
+  reflexivity.
 Qed.
